@@ -348,7 +348,7 @@ def correspond(ctx, gen_ok):
                      dict(info, got=[int(x) for x in M.blocks], expected=want))
     # CompositeBasis of stub bases: N, Nbfun, nelems and the stacked element_dofs; rejected combinations
     for c in range(ctx.n(6, 40)):
-        M = rng.randint(1, 3)
+        M = rng.randint(1, 3) if c >= 2 else 3 + c
         nt, nq = rng.randint(1, 3), rng.randint(1, 2)
         dx = S.random_dx(rng, nt, nq)
         sts = [stub(rng.randint(1, 4), rng.randint(1, 3), nt, nq, dx) for _ in range(M)]
@@ -365,6 +365,14 @@ def correspond(ctx, gen_ok):
         except Exception as e:  # noqa
             ctx.fail('stub:compositebasis', f'CompositeBasis on stub bases: unexpected {type(e).__name__}: {e}', info)
             continue
+        if out != [[0]]:
+            refd, o = [], 0
+            for b in sts:
+                refd += (b.element_dofs + o).tolist()
+                o += int(b.N)
+            if out[1:] != refd or out[0][0] != o:
+                ctx.fail('compositebasis:offsets', 'CompositeBasis.element_dofs are not the component tables shifted by N_0 + ... + N_{n-1}',
+                         dict(info, got=out, expected=[[o, int(cb.Nbfun), int(cb.nelems)]] + refd))
         if bad and out != [[0]]:
             ctx.fail('compositebasis:accepts-different-element-counts', 'CompositeBasis accepted bases with different numbers of elements', info)
         cases.append((f'(CCBasis {clist([S.coq_basis(b.tables) for b in sts])})', f'(ONatss {clist([cnats(r) for r in out])})',
